@@ -21,6 +21,10 @@ def run(F, X, rep):
     R.a1_succeeded_short_circuit(C, rep, "C05-A1")
     R.a2_pending_pay_only_after_none(C, rep, "C05-A2")
     R.a3_one_lifecycle_per_entry(C, rep, "C05-A3")
+    import rules_hh as H3
+    if H3.need_hh(C, rep, "C05-A3"):
+        # ... and stays the only one: the table entry is removed only by that lifecycle's final answer
+        H3.p3_answer_reaches_everyone(C, rep, "C05-A3")
     R.w1_intent_before_pay(C, rep, "C05-A4")
     R.p2_exactly_one_answer(C, rep, "C05-A5")
     # A6: the provider side of "nothing pending or complete" (restart path re-checks the node)
